@@ -79,3 +79,24 @@ func OnNEP17Payment(from, amount, data)
 // nothing is created: what is sent never exceeds the balance that was read
 lemma emitConserves [C19]: forall gg Int, n Int :: gg >= 0 && n >= 1 ==> gg / 2 + n * share(gg, n) <= gg
 @*/
+
+/*@
+module upgrade
+props C16
+use common core
+use common vote
+dialect neovm
+
+// C16: an upgrade runs only from a supported older version: oldest supported <= deployed version < new version.
+pure lastarg(d Any) Int = asint(aslist(d)[len(aslist(d)) - 1])
+
+// (legacy notary migration with its GAS distribution loops: only its termination paths matter for the version window)
+func switchToNotary(ctx, args)
+  loop 0
+    invariant true
+  loop 1
+    invariant true
+
+func _deploy(data, isUpdate)
+  ensures [C16] isUpdate ==> PrevVersion <= lastarg(data) && lastarg(data) < Version
+@*/
